@@ -73,6 +73,9 @@ package html
 // The visibility handed to sub-components is the component's own.
 //@ func IndividualName.WriteHTMLTo
 //@   props C17
+//@   deepcall Document.AddFamily check publishing-edits-only-throw-away-documents: fresh(arg0)
+//@   deepcall Document.AddIndividual check publishing-edits-only-throw-away-documents: fresh(arg0)
+//@   deepcall Document.DeleteNode check publishing-edits-only-throw-away-documents: fresh(arg0)
 //@   requires valid: c.visibility == LivingVisibilityShow || c.visibility == LivingVisibilityHide || c.visibility == LivingVisibilityPlaceholder
 //@   deepcall IndividualNode.Name check name-cleared: arg0 == nil || !livingOf(arg0) || c.visibility == LivingVisibilityShow
 //@   deepcall IndividualNode.Names check name-cleared: arg0 == nil || !livingOf(arg0) || c.visibility == LivingVisibilityShow
@@ -83,6 +86,9 @@ package html
 //@   trustframe
 //@ func IndividualDates.WriteHTMLTo
 //@   props C17
+//@   deepcall Document.AddFamily check publishing-edits-only-throw-away-documents: fresh(arg0)
+//@   deepcall Document.AddIndividual check publishing-edits-only-throw-away-documents: fresh(arg0)
+//@   deepcall Document.DeleteNode check publishing-edits-only-throw-away-documents: fresh(arg0)
 //@   requires valid: c.visibility == LivingVisibilityShow || c.visibility == LivingVisibilityHide || c.visibility == LivingVisibilityPlaceholder
 //@   deepcall IndividualNode.Name check name-cleared: arg0 == nil || !livingOf(arg0) || c.visibility == LivingVisibilityShow
 //@   deepcall IndividualNode.Names check name-cleared: arg0 == nil || !livingOf(arg0) || c.visibility == LivingVisibilityShow
@@ -93,6 +99,9 @@ package html
 //@   trustframe
 //@ func IndividualLink.WriteHTMLTo
 //@   props C17
+//@   deepcall Document.AddFamily check publishing-edits-only-throw-away-documents: fresh(arg0)
+//@   deepcall Document.AddIndividual check publishing-edits-only-throw-away-documents: fresh(arg0)
+//@   deepcall Document.DeleteNode check publishing-edits-only-throw-away-documents: fresh(arg0)
 //@   requires valid: c.visibility == LivingVisibilityShow || c.visibility == LivingVisibilityHide || c.visibility == LivingVisibilityPlaceholder
 //@   deepcall IndividualNode.Name check name-cleared: arg0 == nil || !livingOf(arg0) || c.visibility == LivingVisibilityShow
 //@   deepcall IndividualNode.Names check name-cleared: arg0 == nil || !livingOf(arg0) || c.visibility == LivingVisibilityShow
@@ -105,6 +114,9 @@ package html
 //@   oncall PageIndividual check vis-passed: arg2 == c.visibility
 //@ func IndividualButton.WriteHTMLTo
 //@   props C17
+//@   deepcall Document.AddFamily check publishing-edits-only-throw-away-documents: fresh(arg0)
+//@   deepcall Document.AddIndividual check publishing-edits-only-throw-away-documents: fresh(arg0)
+//@   deepcall Document.DeleteNode check publishing-edits-only-throw-away-documents: fresh(arg0)
 //@   requires valid: c.visibility == LivingVisibilityShow || c.visibility == LivingVisibilityHide || c.visibility == LivingVisibilityPlaceholder
 //@   deepcall IndividualNode.Name check name-cleared: arg0 == nil || !livingOf(arg0) || c.visibility == LivingVisibilityShow
 //@   deepcall IndividualNode.Names check name-cleared: arg0 == nil || !livingOf(arg0) || c.visibility == LivingVisibilityShow
@@ -139,6 +151,10 @@ package html
 //@   trustframe
 //@ func getSurnames
 //@   props C17
+// the surnames depend on who is visible: what is remembered about a document is
+// remembered - and looked up - per document AND visibility
+//@   oncall sync.Map.Load check remembered-per-document-and-visibility: arg1.document == document && arg1.visibility == visibility
+//@   oncall sync.Map.Store check remembered-per-document-and-visibility: arg1.document == document && arg1.visibility == visibility
 //@   requires valid: visibility == LivingVisibilityShow || visibility == LivingVisibilityHide || visibility == LivingVisibilityPlaceholder
 //@   deepcall IndividualNode.Name check name-cleared: arg0 == nil || !livingOf(arg0) || visibility == LivingVisibilityShow
 //@   deepcall IndividualNode.Names check name-cleared: arg0 == nil || !livingOf(arg0) || visibility == LivingVisibilityShow
@@ -159,6 +175,9 @@ package html
 //@   trustframe
 //@ func SurnameIndex.WriteHTMLTo
 //@   props C17
+//@   deepcall Document.AddFamily check publishing-edits-only-throw-away-documents: fresh(arg0)
+//@   deepcall Document.AddIndividual check publishing-edits-only-throw-away-documents: fresh(arg0)
+//@   deepcall Document.DeleteNode check publishing-edits-only-throw-away-documents: fresh(arg0)
 //@   requires valid: c.visibility == LivingVisibilityShow || c.visibility == LivingVisibilityHide || c.visibility == LivingVisibilityPlaceholder
 //@   deepcall IndividualNode.Name check name-cleared: arg0 == nil || !livingOf(arg0) || c.visibility == LivingVisibilityShow
 //@   deepcall IndividualNode.Names check name-cleared: arg0 == nil || !livingOf(arg0) || c.visibility == LivingVisibilityShow
@@ -169,6 +188,9 @@ package html
 //@   trustframe
 //@ func PartnersAndChildren.WriteHTMLTo
 //@   props C17
+//@   deepcall Document.AddFamily check publishing-edits-only-throw-away-documents: fresh(arg0)
+//@   deepcall Document.AddIndividual check publishing-edits-only-throw-away-documents: fresh(arg0)
+//@   deepcall Document.DeleteNode check publishing-edits-only-throw-away-documents: fresh(arg0)
 //@   requires valid: c.visibility == LivingVisibilityShow || c.visibility == LivingVisibilityHide || c.visibility == LivingVisibilityPlaceholder
 //@   deepcall IndividualNode.Name check name-cleared: arg0 == nil || !livingOf(arg0) || c.visibility == LivingVisibilityShow
 //@   deepcall IndividualNode.Names check name-cleared: arg0 == nil || !livingOf(arg0) || c.visibility == LivingVisibilityShow
@@ -179,6 +201,9 @@ package html
 //@   trustframe
 //@ func ParentButtons.WriteHTMLTo
 //@   props C17
+//@   deepcall Document.AddFamily check publishing-edits-only-throw-away-documents: fresh(arg0)
+//@   deepcall Document.AddIndividual check publishing-edits-only-throw-away-documents: fresh(arg0)
+//@   deepcall Document.DeleteNode check publishing-edits-only-throw-away-documents: fresh(arg0)
 //@   requires valid: c.visibility == LivingVisibilityShow || c.visibility == LivingVisibilityHide || c.visibility == LivingVisibilityPlaceholder
 //@   deepcall IndividualNode.Name check name-cleared: arg0 == nil || !livingOf(arg0) || c.visibility == LivingVisibilityShow
 //@   deepcall IndividualNode.Names check name-cleared: arg0 == nil || !livingOf(arg0) || c.visibility == LivingVisibilityShow
@@ -189,6 +214,9 @@ package html
 //@   trustframe
 //@ func AllParentButtons.WriteHTMLTo
 //@   props C17
+//@   deepcall Document.AddFamily check publishing-edits-only-throw-away-documents: fresh(arg0)
+//@   deepcall Document.AddIndividual check publishing-edits-only-throw-away-documents: fresh(arg0)
+//@   deepcall Document.DeleteNode check publishing-edits-only-throw-away-documents: fresh(arg0)
 //@   requires valid: c.visibility == LivingVisibilityShow || c.visibility == LivingVisibilityHide || c.visibility == LivingVisibilityPlaceholder
 //@   deepcall IndividualNode.Name check name-cleared: arg0 == nil || !livingOf(arg0) || c.visibility == LivingVisibilityShow
 //@   deepcall IndividualNode.Names check name-cleared: arg0 == nil || !livingOf(arg0) || c.visibility == LivingVisibilityShow
@@ -199,6 +227,9 @@ package html
 //@   trustframe
 //@ func IndividualNameAndDatesLink.WriteHTMLTo
 //@   props C17
+//@   deepcall Document.AddFamily check publishing-edits-only-throw-away-documents: fresh(arg0)
+//@   deepcall Document.AddIndividual check publishing-edits-only-throw-away-documents: fresh(arg0)
+//@   deepcall Document.DeleteNode check publishing-edits-only-throw-away-documents: fresh(arg0)
 //@   requires valid: c.visibility == LivingVisibilityShow || c.visibility == LivingVisibilityHide || c.visibility == LivingVisibilityPlaceholder
 //@   deepcall IndividualNode.Name check name-cleared: arg0 == nil || !livingOf(arg0) || c.visibility == LivingVisibilityShow
 //@   deepcall IndividualNode.Names check name-cleared: arg0 == nil || !livingOf(arg0) || c.visibility == LivingVisibilityShow
@@ -209,6 +240,9 @@ package html
 //@   trustframe
 //@ func IndividualStatistics.WriteHTMLTo
 //@   props C17
+//@   deepcall Document.AddFamily check publishing-edits-only-throw-away-documents: fresh(arg0)
+//@   deepcall Document.AddIndividual check publishing-edits-only-throw-away-documents: fresh(arg0)
+//@   deepcall Document.DeleteNode check publishing-edits-only-throw-away-documents: fresh(arg0)
 //@   requires valid: c.visibility == LivingVisibilityShow || c.visibility == LivingVisibilityHide || c.visibility == LivingVisibilityPlaceholder
 //@   deepcall IndividualNode.Name check name-cleared: arg0 == nil || !livingOf(arg0) || c.visibility == LivingVisibilityShow
 //@   deepcall IndividualNode.Names check name-cleared: arg0 == nil || !livingOf(arg0) || c.visibility == LivingVisibilityShow
@@ -219,6 +253,9 @@ package html
 //@   trustframe
 //@ func FamilyInList.WriteHTMLTo
 //@   props C17
+//@   deepcall Document.AddFamily check publishing-edits-only-throw-away-documents: fresh(arg0)
+//@   deepcall Document.AddIndividual check publishing-edits-only-throw-away-documents: fresh(arg0)
+//@   deepcall Document.DeleteNode check publishing-edits-only-throw-away-documents: fresh(arg0)
 //@   requires valid: c.visibility == LivingVisibilityShow || c.visibility == LivingVisibilityHide || c.visibility == LivingVisibilityPlaceholder
 //@   deepcall IndividualNode.Name check name-cleared: arg0 == nil || !livingOf(arg0) || c.visibility == LivingVisibilityShow
 //@   deepcall IndividualNode.Names check name-cleared: arg0 == nil || !livingOf(arg0) || c.visibility == LivingVisibilityShow
@@ -229,6 +266,13 @@ package html
 //@   trustframe
 //@ func Publisher.sendIndividualFiles
 //@   props C17
+// C19 (checked with this C17 contract, reported by the C17 check): the file of an individual is named by PageIndividual - asked about this
+// individual, with the publisher's visibility and the publisher's places, the
+// same call every link to the page makes - and by nothing else
+//@   ghost pageName string = ""
+//@   oncall PageIndividual check as-the-links-do: arg0 == publisher.doc && arg1 == individual && arg2 == publisher.options.LivingVisibility && arg3 == publisher.placesMap
+//@   oncall PageIndividual do pageName = result
+//@   oncall NewFile#2 check named-as-the-links-name-it: arg0 == pageName
 //@   requires valid: publisher.options.LivingVisibility == LivingVisibilityShow || publisher.options.LivingVisibility == LivingVisibilityHide || publisher.options.LivingVisibility == LivingVisibilityPlaceholder
 //@   deepcall IndividualNode.Name check name-cleared: arg0 == nil || !livingOf(arg0) || publisher.options.LivingVisibility == LivingVisibilityShow
 //@   deepcall IndividualNode.Names check name-cleared: arg0 == nil || !livingOf(arg0) || publisher.options.LivingVisibility == LivingVisibilityShow
@@ -241,6 +285,9 @@ package html
 //@   oncall PageIndividual check vis-passed: arg2 == publisher.options.LivingVisibility
 //@ func IndividualInList.WriteHTMLTo
 //@   props C17
+//@   deepcall Document.AddFamily check publishing-edits-only-throw-away-documents: fresh(arg0)
+//@   deepcall Document.AddIndividual check publishing-edits-only-throw-away-documents: fresh(arg0)
+//@   deepcall Document.DeleteNode check publishing-edits-only-throw-away-documents: fresh(arg0)
 //@   requires valid: c.visibility == LivingVisibilityShow || c.visibility == LivingVisibilityHide || c.visibility == LivingVisibilityPlaceholder
 //@   requires cleared: c.individual == nil || !livingOf(c.individual) || c.visibility == LivingVisibilityShow
 //@   deepcall IndividualNode.Name check name-cleared: arg0 == nil || !livingOf(arg0) || c.visibility == LivingVisibilityShow
@@ -252,6 +299,9 @@ package html
 //@   trustframe
 //@ func IndividualEvents.WriteHTMLTo
 //@   props C17
+//@   deepcall Document.AddFamily check publishing-edits-only-throw-away-documents: fresh(arg0)
+//@   deepcall Document.AddIndividual check publishing-edits-only-throw-away-documents: fresh(arg0)
+//@   deepcall Document.DeleteNode check publishing-edits-only-throw-away-documents: fresh(arg0)
 //@   requires valid: c.visibility == LivingVisibilityShow || c.visibility == LivingVisibilityHide || c.visibility == LivingVisibilityPlaceholder
 //@   requires cleared: c.individual == nil || !livingOf(c.individual) || c.visibility == LivingVisibilityShow
 //@   deepcall IndividualNode.Name check name-cleared: arg0 == nil || !livingOf(arg0) || c.visibility == LivingVisibilityShow
@@ -263,6 +313,9 @@ package html
 //@   trustframe
 //@ func IndividualPage.WriteHTMLTo
 //@   props C17
+//@   deepcall Document.AddFamily check publishing-edits-only-throw-away-documents: fresh(arg0)
+//@   deepcall Document.AddIndividual check publishing-edits-only-throw-away-documents: fresh(arg0)
+//@   deepcall Document.DeleteNode check publishing-edits-only-throw-away-documents: fresh(arg0)
 //@   requires valid: c.options.LivingVisibility == LivingVisibilityShow || c.options.LivingVisibility == LivingVisibilityHide || c.options.LivingVisibility == LivingVisibilityPlaceholder
 //@   requires cleared: c.individual == nil || !livingOf(c.individual) || c.options.LivingVisibility == LivingVisibilityShow
 //@   deepcall IndividualNode.Name check name-cleared: arg0 == nil || !livingOf(arg0) || c.options.LivingVisibility == LivingVisibilityShow
@@ -279,6 +332,9 @@ package html
 // living individual (the published site must not depend on them).
 //@ func EventStatistics.WriteHTMLTo
 //@   props C17
+//@   deepcall Document.AddFamily check publishing-edits-only-throw-away-documents: fresh(arg0)
+//@   deepcall Document.AddIndividual check publishing-edits-only-throw-away-documents: fresh(arg0)
+//@   deepcall Document.DeleteNode check publishing-edits-only-throw-away-documents: fresh(arg0)
 //@   requires valid: c.visibility == LivingVisibilityShow || c.visibility == LivingVisibilityHide || c.visibility == LivingVisibilityPlaceholder
 //@   deepcall IndividualNode.* except IsLiving,Is,Document,Families,Spouses,Parents,Children,SpouseChildren,FamilyWithSpouse,FamilyWithUnknownSpouse,Pointer,Identifier,Tag,Nodes,Name,Names,String check data-cleared: arg0 == nil || !livingOf(arg0) || c.visibility != LivingVisibilityHide
 //@   opaque IndividualNode.*, NameNode.*, BirthNode.*, DeathNode.*, BaptismNode.*, BurialNode.*, DateNode.*, PlaceNode.*, SexNode.*
@@ -286,6 +342,9 @@ package html
 //@   trustframe
 //@ func SurnameInList.WriteHTMLTo
 //@   props C17
+//@   deepcall Document.AddFamily check publishing-edits-only-throw-away-documents: fresh(arg0)
+//@   deepcall Document.AddIndividual check publishing-edits-only-throw-away-documents: fresh(arg0)
+//@   deepcall Document.DeleteNode check publishing-edits-only-throw-away-documents: fresh(arg0)
 //@   requires valid: c.visibility == LivingVisibilityShow || c.visibility == LivingVisibilityHide || c.visibility == LivingVisibilityPlaceholder
 //@   deepcall IndividualNode.Name check counted-only-when-visible: arg0 == nil || !livingOf(arg0) || c.visibility != LivingVisibilityHide
 //@   opaque IndividualNode.*, NameNode.*
@@ -293,11 +352,17 @@ package html
 //@   trustframe
 //@ func StatisticsPage.WriteHTMLTo
 //@   props C17
+//@   deepcall Document.AddFamily check publishing-edits-only-throw-away-documents: fresh(arg0)
+//@   deepcall Document.AddIndividual check publishing-edits-only-throw-away-documents: fresh(arg0)
+//@   deepcall Document.DeleteNode check publishing-edits-only-throw-away-documents: fresh(arg0)
 //@   requires valid: c.options.LivingVisibility == LivingVisibilityShow || c.options.LivingVisibility == LivingVisibilityHide || c.options.LivingVisibility == LivingVisibilityPlaceholder
 //@   oncall NewEventStatistics check vis-passed: arg1 == c.options.LivingVisibility
 //@   oncall NewIndividualStatistics check vis-passed: arg1 == c.options.LivingVisibility
 //@ func SurnameListPage.WriteHTMLTo
 //@   props C17
+//@   deepcall Document.AddFamily check publishing-edits-only-throw-away-documents: fresh(arg0)
+//@   deepcall Document.AddIndividual check publishing-edits-only-throw-away-documents: fresh(arg0)
+//@   deepcall Document.DeleteNode check publishing-edits-only-throw-away-documents: fresh(arg0)
 //@   requires valid: c.options.LivingVisibility == LivingVisibilityShow || c.options.LivingVisibility == LivingVisibilityHide || c.options.LivingVisibility == LivingVisibilityPlaceholder
 //@   oncall getSurnames check vis-passed: arg1 == c.options.LivingVisibility
 //@   oncall NewSurnameInList check vis-passed: arg2 == c.options.LivingVisibility
@@ -366,3 +431,10 @@ package html
 //@ func Publisher.sendIndividualFiles
 //@   only C19
 //@   trusted
+
+// C13 (a) for publishing, checked with the C17 contracts of the components
+// (the three deepcall rules "publishing-edits-only-throw-away-documents" on
+// every WriteHTMLTo above): a component adds a family or an individual, or
+// deletes a record, only in a document it created itself - the placeholder
+// family of a person without parents lives in a throw-away document, never in
+// the document that is being published.
